@@ -108,6 +108,11 @@ pub struct Case {
     /// too and counted in excluded_known.
     #[serde(default)]
     pub strict: bool,
+    /// true (reproducer of a known finding only): at the end the frontend is removed while flows are
+    /// alive, then the listener is deactivated (which closes them). Generated scenarios deactivate
+    /// the listener first.
+    #[serde(default)]
+    pub unroute_live: bool,
 }
 
 fn dg() -> impl Strategy<Value = Dg> {
@@ -159,6 +164,7 @@ pub fn strategy() -> impl Strategy<Value = Case> {
                 clients,
                 steps,
                 strict: false,
+                unroute_live: false,
             }
         })
 }
@@ -698,11 +704,14 @@ fn drive(lab: &mut UdpLab, case: &Case) -> Result<Observed, Failure> {
 
     // ---- take the configuration down again (the worker is reused)
     if lab.worker.alive() {
-        let mut down = vec![
-            RequestType::RemoveUdpFrontend(RequestUdpFrontend { cluster_id: cluster.clone(), address: front.into(), ..Default::default() }),
-            RequestType::DeactivateListener(DeactivateListener { address: front.into(), proxy: ListenerType::Udp.into(), to_scm: false }),
-            RequestType::RemoveListener(RemoveListener { address: front.into(), proxy: ListenerType::Udp.into() }),
-        ];
+        // Known finding C19/worker-died:flows-closed-after-unroute: removing the frontend switches the
+        // manager to the default (IP-only) affinity; flows admitted in IP+port mode that are closed
+        // afterwards leave their entry in the shell's shadow table (debug assertion at lib/src/udp.rs:1631).
+        // Generated scenarios close the flows first (deactivation), the reproducer does not.
+        let unroute = RequestType::RemoveUdpFrontend(RequestUdpFrontend { cluster_id: cluster.clone(), address: front.into(), ..Default::default() });
+        let deactivate = RequestType::DeactivateListener(DeactivateListener { address: front.into(), proxy: ListenerType::Udp.into(), to_scm: false });
+        let mut down = if case.unroute_live { vec![unroute, deactivate] } else { vec![deactivate, unroute] };
+        down.push(RequestType::RemoveListener(RemoveListener { address: front.into(), proxy: ListenerType::Udp.into() }));
         for (k, addr) in backend_addrs.iter().enumerate() {
             down.push(RequestType::RemoveBackend(RemoveBackend { cluster_id: cluster.clone(), backend_id: format!("{cluster}-{k}"), address: (*addr).into() }));
         }
@@ -721,7 +730,8 @@ fn drive(lab: &mut UdpLab, case: &Case) -> Result<Observed, Failure> {
                     if lab.worker.alive() {
                         panic!("harness: tear-down request got no answer: {e:?} - {dbg}");
                     }
-                    return Err(Failure::new("C19/worker-died", format!("the worker thread ended while handling {dbg} after the scenario: {:?}", lab.worker.join())));
+                    let sig = if case.unroute_live { "C19/worker-died:flows-closed-after-unroute" } else { "C19/worker-died:tear-down" };
+                    return Err(Failure::new(sig, format!("the worker thread ended while handling {dbg} at the end of the scenario: {:?}", lab.worker.join())));
                 }
             }
         }
@@ -831,7 +841,9 @@ fn judge(case: &Case, o: &Observed) -> CheckResult {
         }
         by_from.entry(a.from).or_default().push((a.order, a.backend, c, s, pp.is_some()));
     }
-    rep.excluded_known += excluded_dst;
+    // known shapes left out by construction, one count per scenario each: the PROXY v2 destination is
+    // compared with the backend's address too; the frontend is not removed while IP+port flows live
+    rep.excluded_known += u64::from(excluded_dst > 0) + u64::from(case.with_port && !case.unroute_live && !o.arrivals.is_empty());
 
     // ---- (1) isolation: one upstream socket carries one client's flow
     let mut lives: Vec<Life> = vec![];
@@ -1182,6 +1194,11 @@ pub fn rule() -> &'static str {
 /// child-process entry: run this shard's scenarios
 pub fn child(args: &Args, total: u64) -> Stats {
     lab::init_ports(args.shard.map(|s| s.0).unwrap_or(0));
+    if std::env::var("VP_LAB_LOG").is_ok() {
+        // debugging by hand: show where a worker thread panics (the engine's hook keeps that per thread)
+        engine::install_panic_hook();
+        engine::QUIET_PANICS.store(false, SeqCst);
+    }
     let labcell: RefCell<Option<UdpLab>> = RefCell::new(None);
     let flaky = std::cell::Cell::new(0u64);
     let run_on = |fresh: bool, case: &Case| -> CheckResult {
